@@ -7,6 +7,8 @@ PID=$1; NAME=${2:-$PID}
 SRC=/tmp/wt-$PID/SEED
 DST=/verif/seeded/$NAME
 mkdir -p $DST
+# re-confirmation mode (no sub-agent worktree left: e.g. a patch rebased by us onto a later fix): use seeded/<name> as it is
+if [ -d $SRC ]; then
 cp $SRC/patch.diff $DST/patch.diff 2>/dev/null || (cd /tmp/wt-$PID && git diff HEAD -- . ':(exclude)*_verif.go' ':(exclude)SEED' > $DST/patch.diff)
 # the worktrees had the *_verif.go hook files deleted: make sure the patch does not mention them
 python3 - $DST/patch.diff <<'PY'
@@ -17,6 +19,7 @@ keep=[x for x in parts if x.strip() and '_verif.go' not in x.split('\n')[0] and 
 open(p,'w').write(''.join(keep))
 PY
 for f in $SRC/*; do b=$(basename $f); case $b in patch.diff|PROMPT.txt) ;; *) cp $f $DST/;; esac; done
+fi
 S=$(mktemp -d ${TMPDIR:-/var/tmp}/verif-seed.XXXXXX)
 rsync -a --exclude .git /repo/ $S/
 DEMO_PLACE=$(python3 -c "import json;print(json.load(open('$DST/meta.json')).get('demo_place','').split()[0])")
